@@ -36,6 +36,12 @@ Proof.
   rewrite IH; [reflexivity|]. intro G. apply H. right. exact G.
 Qed.
 
+Lemma allset_agree x y cs : (forall c, In c cs -> bit y c = bit x c) -> allset y cs = allset x cs.
+Proof.
+  unfold allset. induction cs as [|c r IH]; simpl; intro H; [reflexivity|].
+  rewrite (H c (or_introl eq_refl)), IH; [reflexivity|]. intros c' Hc'. apply H. right. exact Hc'.
+Qed.
+
 Section Lemmas.
   Variable S : KS.
   Add Ring kring : (k_ring S).
